@@ -330,6 +330,9 @@ func (osObj *VirtualOS) MkdirTemp(dir, pattern string) (string, error) {
 	if osObj.tmp == "" {
 		return "", errors.New("no temporary directory")
 	}
+	if strings.ContainsRune(pattern, os.PathSeparator) {
+		return "", errors.New("pattern contains path separator")
+	}
 	mount, tmpPath, found := osObj.findMount(osObj.tmp)
 	if !found {
 		return "", fmt.Errorf("temporary directory not found: %s", osObj.tmp)
